@@ -39,6 +39,18 @@ THEOREMS = [
     "Pydjinni.Front.dataType_follow_necessary",
     "Pydjinni.Front.dataType_mono",
     "Pydjinni.Front.field_roundtrip",
+    "Pydjinni.Front.lexOne_tok_bounds",
+    "Pydjinni.Front.lexOne_skip_bounds",
+    "Pydjinni.Front.lexAux_fuel",
+    "Pydjinni.Front.lex_none_iff",
+    "Pydjinni.Front.lexAux_ne_none",
+    "Pydjinni.Front.lex_token_position",
+    "Pydjinni.Front.lex_token_bounds",
+    "Pydjinni.Front.lex_token_column",
+    "Pydjinni.Front.lex_reconstruct",
+    "Pydjinni.Front.lex_lengths",
+    "Pydjinni.Front.scan_ws_run",
+    "Pydjinni.Front.lex_ws_invariant",
 ]
 LEVEL = "proof"
 
